@@ -277,7 +277,8 @@ def h_model(ctx):
         for i in range(n):
             e = e_row[i]
             cell = row[lead + i]
-            ok = CD.close_printed(e, cell, tol_digits) if (e is not None and not (isinstance(e, float) and (math.isinf(e) or math.isnan(e)))) else cell in ("nan", "inf", "-inf")
+            # a bias of 6e-4 between ratios near 1 held in float32 is only good to ~1e-7 absolutely
+            ok = CD.close_printed(e, cell, tol_digits, abs_tol=5e-7) if (e is not None and not (isinstance(e, float) and (math.isinf(e) or math.isnan(e)))) else cell in ("nan", "inf", "-inf")
             if not ok:
                 culprit = "+".join(sorted(set(g[0] for g in groups))) or "base"
                 ctx.fail("model:value:%s" % culprit, argv=ctx.notes["argv"], row=k, input=i, expected=e, actual=cell)
